@@ -64,7 +64,7 @@ func c07Burst(w *h.W, batch int) {
 		w.Violation("C07:store-did-not-start", map[string]any{"error": err.Error()})
 		return
 	}
-	defer st.Stop()
+	defer func() { stopBounded(st, 30*time.Second) }()
 	var mu sync.Mutex
 	bad, class := "", ""
 	fail := func(c, format string, args ...any) {
@@ -158,7 +158,14 @@ func c07Burst(w *h.W, batch int) {
 		close(gate)
 		wg.Wait()
 		if !failed() {
-			st.SealAll() // the next round starts on a fresh active fraction
+			// the next round starts on a fresh active fraction (bounded: a seal that never ends is a stall, not a reason to hang)
+			sealed := make(chan struct{})
+			go func() { st.SealAll(); close(sealed) }()
+			select {
+			case <-sealed:
+			case <-time.After(90 * time.Second):
+				fail("stall-on-seal", "sealing the fraction of burst round %d did not finish within 90 s", round)
+			}
 		}
 	}
 	w.Count("burst_searches", searches.Load())
@@ -169,6 +176,20 @@ func c07Burst(w *h.W, batch int) {
 		return
 	}
 	w.Held(fmt.Sprintf("burst|w%d|r%d|%d", writers, readers, delaySeed), searches.Load() > int64(rounds))
+}
+
+// stopBounded stops the store; false if Stop did not return within the bound (a background goroutine of the store is
+// stuck - the statement's "no deadlock" covers the seal/maintenance goroutines Stop waits for). The bound is long against
+// the work left (seals of a few KiB).
+func stopBounded(st *sdb.Store, bound time.Duration) bool {
+	done := make(chan struct{})
+	go func() { st.Stop(); close(done) }()
+	select {
+	case <-done:
+		return true
+	case <-time.After(bound):
+		return false
+	}
 }
 
 func runC07(w *h.W, batch int) {
@@ -247,15 +268,17 @@ func runC07(w *h.W, batch int) {
 		failed := func() bool { mu.Lock(); defer mu.Unlock(); return bad != "" }
 		var wg sync.WaitGroup
 		var writersDone atomic.Int64
-		var searches, fetches, idsChecked, bulksDone atomic.Int64
+		var searches, fetches, idsChecked, bulksDone, running atomic.Int64
+		running.Store(int64(writers + readers))
 		// bounded progress (the statement's "no deadlock"): while writers are unfinished some bulk, search or fetch must complete
 		stopWatch := w.StallWatch("C07:stall", 60*time.Second, func() int64 { return searches.Load() + fetches.Load() + bulksDone.Load() },
-			func() bool { return writersDone.Load() < int64(writers) }, desc)
+			func() bool { return running.Load() > 0 }, desc)
 		for wi := 0; wi < writers; wi++ {
 			wg.Add(1)
 			wr := rr.Fork()
 			go func(wi int, wr *h.Rng) {
 				defer wg.Done()
+				defer running.Add(-1)
 				defer writersDone.Add(1)
 				docs := perWriter[wi]
 				for len(docs) > 0 && !failed() {
@@ -284,6 +307,7 @@ func runC07(w *h.W, batch int) {
 			rd := rr.Fork()
 			go func(id int, rd *h.Rng) {
 				defer wg.Done()
+				defer running.Add(-1)
 				for writersDone.Load() < int64(writers) && !failed() {
 					qi := h.Pick(rd, queries)
 					from, to, _ := corp.TimeRange(rd)
@@ -375,7 +399,9 @@ func runC07(w *h.W, batch int) {
 			}
 			check("writers idle (seals may still run)")
 			hk.Uninstall()
-			st.Stop()
+			if !stopBounded(st, 90*time.Second) {
+				fail("stall-on-stop", "the store did not stop within 90 s after the run (a seal or maintenance goroutine is stuck)")
+			}
 			if !failed() {
 				st2, err := sdb.Open(st.Dir, sdb.Opt{Mapping: StoreMapping(), FracSize: 1 << 30})
 				if err != nil {
@@ -387,8 +413,12 @@ func runC07(w *h.W, batch int) {
 				}
 			}
 		} else {
+			// the verdict is already known: record it before touching the store again (stopping may hang on the same defect)
+			w.Violation("C07:"+class, map[string]any{"diff": bad, "run": desc})
 			hk.Uninstall()
-			st.Stop()
+			stopBounded(st, 30*time.Second)
+			runtime.GOMAXPROCS(prev)
+			continue
 		}
 		runtime.GOMAXPROCS(prev)
 		hits := ctl.Counts()
